@@ -4,5 +4,5 @@ CONSTANTS
   W = 32
   B = 3
   N = 13
-INVARIANTS SpecRoundTrip SpecOnlyCurve SpecOneEncoding SpecCanonical ImplRoundTrip ImplOnlyCurve ToyShape Laws TableOK
+INVARIANTS SpecRoundTrip SpecOnlyCurve SpecOneEncoding SpecCanonical ToyShape Laws TableOK BoundaryCovered
 CHECK_DEADLOCK FALSE
